@@ -15,6 +15,11 @@ type Config struct {
 	Horizon  int           // scheduling points per execution
 	MaxExec  int64         // execution cap (0 = none); hitting it ends exploration with Exhaustive=false
 	Deadline time.Time     // wall-clock budget (zero = none); hitting it ends exploration with Exhaustive=false
+	// Delay: delay bounding (Emmi, Qadeer, Rakamaric 2011) — every departure from the default
+	// deterministic scheduler (running thread first, then lowest id) costs one deviation, also
+	// when the running thread blocked. Without it (preemption bounding) switches at blocking
+	// points are free.
+	Delay bool
 }
 
 type Stats struct {
@@ -44,10 +49,10 @@ type Scenario struct {
 	Sig   func(res *vsched.Result, obs interface{}) string               // outcome signature (for distinct-outcome counting)
 }
 
-func altCost(c vsched.Choice) int {
+func altCost(c vsched.Choice, delay bool) int {
 	switch c.Kind {
 	case "sched":
-		if c.RunningEnabled {
+		if c.RunningEnabled || delay {
 			return 1
 		}
 		return 0
@@ -137,12 +142,12 @@ func Explore(sc *Scenario, cfg Config) *Stats {
 		for i, c := range res.Trace {
 			costs[i] = cost
 			if c.Chosen != 0 {
-				cost += altCost(c)
+				cost += altCost(c, cfg.Delay)
 			}
 		}
 		for i := len(prefix); i < len(res.Trace); i++ {
 			p := res.Trace[i]
-			if costs[i]+altCost(p) > cfg.Bound {
+			if costs[i]+altCost(p, cfg.Delay) > cfg.Bound {
 				continue
 			}
 			for alt := 1; alt < p.N; alt++ {
